@@ -105,6 +105,9 @@ func genI(ch *vs.Choices, c09 bool, tier string) *iProg {
 			}
 			used[name] = true
 			t := &iTask{Name: name}
+			if i == 0 && name == "top" {
+				t.Aliases = append(t.Aliases, "tpx") // the root task is also referred to as ':tpx' from included files
+			}
 			if ch.Bool(1, 4) {
 				t.Aliases = append(t.Aliases, fmt.Sprintf("al%d%s", i, name))
 			}
@@ -147,7 +150,7 @@ func genI(ch *vs.Choices, c09 bool, tier string) *iProg {
 				}
 			}
 			if f.Idx != 0 && ch.Bool(1, 4) {
-				t.Calls = append(t.Calls, ":top")
+				t.Calls = append(t.Calls, []string{":top", ":tpx"}[ch.Draw(2)])
 			}
 		}
 	}
@@ -441,6 +444,9 @@ func (m *iModel) names(f *iFile, stack []int) (map[string]*iEntry, []string) {
 
 // resolve: the callable name a reference made by entry e to `ref` must bind to.
 func (m *iModel) resolve(e *iEntry, ref string) string {
+	if ref == ":tpx" {
+		return "top" // the root task, by its alias
+	}
 	if strings.HasPrefix(ref, ":") {
 		return strings.TrimPrefix(ref, ":") // the root Taskfile's task
 	}
